@@ -183,3 +183,187 @@ def write_ar(members, symindex=True, index_syms=None, long_names=True):
         if len(content) & 1:
             out += b"\n"
     return bytes(out), offs
+
+
+# ---------------------------------------------------------------------------------------------------
+# Abstract descriptions (the generator's ground truth) and the case generators of the `link` streams
+# ---------------------------------------------------------------------------------------------------
+import re
+
+JAL = 0x0c000000
+MIPS_CPUS = {"mips": True, "mips32": False, "pic32": False, "ps2_ee": False, "n64_rsp": True}   # name -> big endian
+RESERVED = set("""add addi addiu addu and andi beq bne j jal jr lui lw sw nop or ori sll srl sub subu xor main
+ org dc32 db align mips mips32 pic32 ps2_ee n64_rsp msp430 riscv big_endian little_endian end""".split())
+
+
+class Fn:
+    """a function of an object: `size` bytes at `off` in .text; calls = {byte offset in function: symbol name}"""
+
+    def __init__(self, name, off, size, words, calls, bind=STB_GLOBAL):
+        self.name, self.off, self.size, self.words, self.calls, self.bind = name, off, size, words, calls, bind
+
+    def code(self, big):
+        b = b"".join(struct.pack(">I" if big else "<I", w) for w in self.words)
+        return b[:self.size]
+
+
+class ObjDesc:
+    def __init__(self, fns, text, syms, rels, opts=None):
+        self.fns, self.text, self.syms, self.rels, self.opts = fns, text, syms, rels, dict(opts or {})
+
+    def elf(self):
+        return write_elf(Obj(text=self.text, syms=self.syms, rels=self.rels, **self.opts))[0]
+
+
+def rand_word(rng, big):
+    """an instruction word that is not a jal (top six bits != 000011)"""
+    while True:
+        w = rng.choice([0, 0x03e00008, 0x24020000 | rng.getrandbits(16), rng.getrandbits(32),
+                        0x08000000 | rng.getrandbits(26), 0x27bd0000 | rng.getrandbits(16)])
+        if (w >> 26) != 3:
+            return w
+
+
+def make_obj(rng, big, names, extern, nfn=None, opts=None, odd_sizes=False, local_calls=True):
+    """one object with functions `names`; calls go to its own functions or to names in `extern`.
+    -> ObjDesc"""
+    fns, text = [], bytearray()
+    syms, rels = [], []
+    if rng.random() < 0.6:
+        text += bytes(rng.getrandbits(8) for _ in range(4 * rng.randrange(0, 3)))      # function not at offset 0
+    symindex = {}
+
+    def sym_of(name, defined):
+        if name not in symindex:
+            symindex[name] = len(syms) + 1
+            syms.append(Sym(name, 0, 0, STB_GLOBAL, STT_NOTYPE, "UND"))
+        return symindex[name]
+
+    # declare in a random order so that symbol indices do not follow the text order
+    order = list(names)
+    rng.shuffle(order)
+    if rng.random() < 0.5:
+        syms.append(Sym("", 0, 0, STB_LOCAL, STT_SECTION, ".text"))
+    for name in order:
+        symindex[name] = len(syms) + 1
+        syms.append(Sym(name, 0, 0, STB_GLOBAL, STT_FUNC, ".text"))
+    for name in names:
+        nwords = rng.choice([1, 1, 2, 2, 3, 4, 6, 10])
+        words, calls = [], {}
+        pool = ([n for n in names] if local_calls else []) + list(extern)
+        for k in range(nwords):
+            if pool and rng.random() < 0.35:
+                tgt = rng.choice(pool)
+                words.append(JAL | rng.choice([0, 0, rng.getrandbits(26), 0x01000000, 0x03ffffff]))
+                calls[4 * k] = tgt
+            else:
+                words.append(rand_word(rng, big))
+        size = 4 * nwords
+        if odd_sizes and rng.random() < 0.5:
+            size -= rng.randrange(1, 4)
+            calls = {o: t for o, t in calls.items() if o + 4 <= size}
+            if 4 * (nwords - 1) not in calls and (words[-1] >> 26) == 3:
+                words[-1] &= 0x03ffffff
+        off = len(text)
+        fn = Fn(name, off, size, words, calls)
+        fns.append(fn)
+        text += fn.code(big)
+        # what follows a function of odd size is not its own: make it visible
+        while len(text) % 4:
+            text.append(0xa5 ^ len(text) & 0xff or 0x5a)
+        if rng.random() < 0.3:
+            text += bytes([0xee] * 4 * rng.randrange(1, 3))
+        s = syms[symindex[name] - 1]
+        s.value, s.size = off, size
+        for o, tgt in sorted(calls.items()):
+            rels.append((off + o, sym_of(tgt, tgt in names), R_MIPS_26))
+    if rng.random() < 0.3:
+        rng.shuffle(rels)
+    return ObjDesc(fns, bytes(text), syms, rels, opts)
+
+
+IDENT = re.compile(r"[A-Za-z_][A-Za-z0-9_]*")
+
+
+def tokens_of(src):
+    """identifier tokens of a source in reading order (comments start with ';', no strings are used)"""
+    out = []
+    for line in src.split("\n"):
+        line = line.split(";")[0]
+        for m in re.finditer(r"0x[0-9a-fA-F]+|[0-9]+|[A-Za-z_][A-Za-z0-9_]*", line):
+            t = m.group(0)
+            if IDENT.fullmatch(t):
+                out.append(t)
+    return out
+
+
+class Program:
+    """restricted MIPS source: statements are tuples
+       ('org', addr) ('label', name) ('jal', name) ('j', name) ('nop',) ('word', name) ('db', n) ('align',)"""
+
+    def __init__(self, cpu, stmts, directive_endian=None):
+        self.cpu, self.stmts, self.directive_endian = cpu, stmts, directive_endian
+
+    def source(self):
+        lines = []
+        if self.cpu:
+            lines.append("." + self.cpu)
+        if self.directive_endian:
+            lines.append("." + self.directive_endian)
+        for s in self.stmts:
+            if s[0] == "org": lines.append(".org 0x%x" % s[1])
+            elif s[0] == "label": lines.append("%s:" % s[1])
+            elif s[0] == "jal": lines.append("  jal %s" % s[1])
+            elif s[0] == "j": lines.append("  j %s" % s[1])
+            elif s[0] == "nop": lines.append("  nop")
+            elif s[0] == "word": lines.append("  .dc32 %s" % s[1])
+            elif s[0] == "db": lines.append("  .db " + ", ".join(str(17 + i) for i in range(s[1])))
+            elif s[0] == "align": lines.append(".align 32")
+        return "\n".join(lines) + "\n"
+
+    def layout(self):
+        """-> (labels {name: addr}, end address, refs [(addr, kind, name)], bytes written {addr: byte or None})"""
+        a, labels, refs, cells = 0, {}, [], {}
+        for s in self.stmts:
+            if s[0] == "org": a = s[1]
+            elif s[0] == "label": labels.setdefault(s[1], a & 0xffffffff)
+            elif s[0] in ("jal", "j", "word"):
+                refs.append((a & 0xffffffff, s[0], s[1]))
+                for i in range(4): cells[(a + i) & 0xffffffff] = None
+                a += 4
+            elif s[0] == "nop":
+                for i in range(4): cells[(a + i) & 0xffffffff] = 0
+                a += 4
+            elif s[0] == "db":
+                for i in range(s[1]): cells[(a + i) & 0xffffffff] = 17 + i
+                a += s[1]
+            elif s[0] == "align":
+                while a & 3: a += 1
+        return labels, a & 0xffffffff, refs, cells
+
+    def big(self):
+        if self.directive_endian:
+            return self.directive_endian == "big_endian"
+        return MIPS_CPUS.get(self.cpu, False)
+
+    def view(self):
+        labels, end, refs, _ = self.layout()
+        hx = lambda s: (s.encode("latin-1").hex() or "00")
+        ids = tokens_of(self.source())
+        names = []
+        for _, _, n in refs:
+            if n not in names: names.append(n)
+        return "cpu=%s;en=%s;e1=%x;e2=%x;ids=%s;syms=%s;refs=%s" % (
+            self.cpu or "-", "b" if self.big() else "l", end, end,
+            ",".join(hx(t) for t in ids) or "-",
+            ",".join("%s:%x" % (hx(n), a) for n, a in labels.items()) or "-",
+            ",".join(hx(n) for n in names) or "-")
+
+
+def link_line(prog, files):
+    """protocol line for harness and driver"""
+    hx = lambda b: (b if isinstance(b, bytes) else b.encode("latin-1")).hex() or "-"
+    parts = ["link", "-", prog.view(), hx(prog.source())]
+    for fn, content in files:
+        parts += [hx(fn), hx(content)]
+    return " ".join(parts)
